@@ -20,8 +20,12 @@ ASSUMPTIONS = [
     "on general doubles the results agree within 1e-9 (abs+rel)",
 ]
 RULE = ("cases from props/C05.py gen(): random POMDPs S 1..6 (S>=3 in 80%), A 1..3, O 1..4, rejected when T and O are invariant "
-        "under a non-identity state permutation or some T_a is symmetric; 4-6 beliefs per model (corners, faces, interior); "
-        "all (a,o) and all three model kinds (dense, sparse, user-defined) per case; non-trivial = S >= 3; distinct by md5 of the case line")
+        "under a non-identity state permutation or some T_a is symmetric; 3-6 beliefs per model (corners, faces, interior); "
+        "all (a,o) per case; 'bel' cases (78%): dense, sparse and user-defined model built once; 10% of them are 'tiny' cases where "
+        "some observation has positive probability 2^-21..2^-33 (tag -t); 'reset' cases (12%): eight variants built through the "
+        "(O,S,A) constructor + setters (container and matrix overloads), re-set with a second table set that has zeros where the "
+        "first / the constructor had mass, and dense<->sparse conversions, judged against the tables supplied last; "
+        "non-trivial = S >= 3; distinct by md5 of the case line")
 THOROUGH_SEEDS = 3
 SEARCH_SEEDS = 2
 CASE_TIMEOUT = 20
@@ -64,11 +68,71 @@ def _tok(x, regime):
     return float(x).hex()
 
 
-def _normalise_floats(v):
-    """general regime: floats that sum to 1 up to rounding; exact zeros stay zeros"""
-    f = [float(x) for x in v]
-    s = sum(f)
-    return [x / s for x in f]
+def _rewards(rng, S, A, regime):
+    rden = rng.choice([1, 1, 2, 4]) if regime == "dy" else rng.choice([1, 3, 10])
+    return [[[Fraction(rng.randint(-8, 8), rden) if rng.random() < 0.8 else Fraction(0) for _ in range(S)]
+             for _ in range(A)] for _ in range(S)]
+
+
+def _random_model(rng, S, A, O, den, zero_p):
+    """asymmetric (T, Ob) or None"""
+    for _ in range(200):
+        T = [[_dist(rng, S, den, zero_p) for _ in range(S)] for _ in range(A)]
+        Ob = [[_dist(rng, O, den, zero_p) for _ in range(S)] for _ in range(A)]
+        if not _symmetric(S, A, O, T, Ob):
+            return T, Ob
+    return None
+
+
+def _beliefs(rng, S, bden, few=False):
+    corner = rng.randrange(S)
+    beliefs = [[Fraction(int(i == corner)) for i in range(S)]]
+    if not few:
+        beliefs.append([Fraction(int(i == (corner + 1) % S)) for i in range(S)])   # second corner
+    beliefs.append(_dist(rng, S, bden, 0.5))      # face
+    if not few:
+        beliefs.append(_dist(rng, S, bden, 0.0))  # interior (entries may still be 0 by chance)
+    unit = Fraction(1, bden) if bden >= 2 * S else Fraction(1, 2 * S)
+    inter = [unit] * S                            # strictly interior
+    inter[rng.randrange(S)] += 1 - sum(inter)
+    beliefs.append(inter)
+    if not few and rng.random() < 0.5:
+        beliefs.append(_dist(rng, S, bden, 0.3))
+    return beliefs
+
+
+def _jig(rng, v):
+    """general regime: random doubles around the rational grid, renormalised, structural zeros kept"""
+    w = [float(x) * (1.0 + 0.25 * rng.random()) if x != 0 else 0.0 for x in v]
+    s = sum(w)
+    w = [x / s for x in w]
+    # keep every non-zero entry well above the sparse models' 1e-6 drop threshold
+    return w if all(x == 0.0 or x >= 1e-3 for x in w) else [float(x) for x in v]
+
+
+def _emit_tables(S, A, O, T, Ob, R3, tok):
+    toks = [tok(T[a][s][s1]) for a in range(A) for s in range(S) for s1 in range(S)]
+    toks += [tok(Ob[a][s1][o]) for a in range(A) for s1 in range(S) for o in range(O)]
+    toks += [tok(R3[s][a][s1]) for s in range(S) for a in range(A) for s1 in range(S)]
+    return toks
+
+
+def _finish(rng, head, regime, S, A, O, tables, beliefs):
+    """tables: list of (T, Ob, R3) in exact fractions; converts to the regime and emits the case line"""
+    if regime == "gen":
+        tables = [([[_jig(rng, r) for r in Ta] for Ta in T], [[_jig(rng, r) for r in Oa] for Oa in Ob],
+                   [[[float(x) * (1.0 + rng.random()) for x in r] for r in Rs] for Rs in R3]) for (T, Ob, R3) in tables]
+        beliefs = [_jig(rng, b) for b in beliefs]
+        tok = lambda x: float(x).hex()
+    else:
+        tok = lambda x: _tok(x, "dy")
+    toks = [head, regime, str(S), str(A), str(O)]
+    for (T, Ob, R3) in tables:
+        toks += _emit_tables(S, A, O, T, Ob, R3, tok)
+    toks.append(str(len(beliefs)))
+    for b in beliefs:
+        toks += [tok(x) for x in b]
+    return " ".join(toks)
 
 
 def _case(rng, regime):
@@ -77,59 +141,121 @@ def _case(rng, regime):
     O = rng.choice([1, 2, 2, 3, 3, 4])
     den = rng.choice([4, 8, 16, 64]) if regime == "dy" else rng.choice([3, 7, 10, 100, 997])
     zero_p = rng.choice([0.0, 0.2, 0.5, 0.7])
+    mo = _random_model(rng, S, A, O, den, zero_p)
+    if mo is None:
+        return None
+    T, Ob = mo
+    beliefs = _beliefs(rng, S, 64 if regime == "dy" else den)
+    return _finish(rng, "bel", regime, S, A, O, [(T, Ob, _rewards(rng, S, A, regime))], beliefs)
+
+
+def _case_tiny(rng):
+    """dyadic case in which some observation has a tiny but POSITIVE probability (2^-21 .. 2^-33): a belief
+    entry 2^-k (k = 20..27) on a state u that is the only one able to reach the states where the observation
+    is possible.  The property excludes only zero-probability observations, so the posterior clauses apply."""
+    S = rng.choice([2, 3, 3, 4, 5])
+    A = rng.choice([1, 2])
+    O = rng.choice([2, 3])
+    den = rng.choice([8, 16, 64])
     for _ in range(200):
-        T = [[_dist(rng, S, den, zero_p) for _ in range(S)] for _ in range(A)]
-        Ob = [[_dist(rng, O, den, zero_p) for _ in range(S)] for _ in range(A)]
+        mo = _random_model(rng, S, A, O, den, rng.choice([0.0, 0.3]))
+        if mo is None:
+            return None
+        T, Ob = mo
+        a0, o0, u = rng.randrange(A), rng.randrange(O), rng.randrange(S)
+        nlit = rng.randint(1, S - 1)
+        lit = rng.sample(range(S), nlit)                 # states where o0 can be observed after a0
+        dark = [x for x in range(S) if x not in lit]
+        others = [o for o in range(O) if o != o0]
+        for s1 in range(S):
+            if s1 in lit:
+                p = Fraction(rng.choice([1, 1, 2, den // 2]), den)   # O(s1,a0,o0) > 0, often 1/8 or smaller
+                rest = _dist(rng, len(others), den, 0.0)
+                row = [Fraction(0)] * O
+                row[o0] = p
+                for o, x in zip(others, rest):
+                    row[o] = x * (1 - p)
+                # keep entries on the den*den grid; they stay >= 1/4096 or 0
+                Ob[a0][s1] = row
+            else:
+                row = [Fraction(0)] * O
+                for o, x in zip(others, _dist(rng, len(others), den, 0.3)):
+                    row[o] = x
+                Ob[a0][s1] = row
+        for s in range(S):
+            if s == u:
+                # u reaches the lit states (and possibly dark ones)
+                row = _dist(rng, S, den, 0.3)
+                if all(row[x] == 0 for x in lit):
+                    row = [Fraction(0)] * S
+                    row[lit[0]] = Fraction(1)
+                T[a0][s] = row
+            else:
+                row = [Fraction(0)] * S
+                for x, p in zip(dark, _dist(rng, len(dark), den, 0.3)):
+                    row[x] = p
+                T[a0][s] = row
         if not _symmetric(S, A, O, T, Ob):
             break
     else:
         return None
-    rden = rng.choice([1, 1, 2, 4]) if regime == "dy" else rng.choice([1, 3, 10])
-    R3 = [[[Fraction(rng.randint(-8, 8), rden) if rng.random() < 0.8 else Fraction(0) for _ in range(S)]
-           for _ in range(A)] for _ in range(S)]
-    corner = rng.randrange(S)
-    beliefs = [[Fraction(int(i == corner)) for i in range(S)],
-               [Fraction(int(i == (corner + 1) % S)) for i in range(S)]]          # two corners
-    bden = 64 if regime == "dy" else den
-    beliefs.append(_dist(rng, S, bden, 0.5))      # face
-    beliefs.append(_dist(rng, S, bden, 0.0))      # interior (entries may still be 0 by chance)
-    unit = Fraction(1, bden) if bden >= 2 * S else Fraction(1, 2 * S)
-    inter = [unit] * S                            # strictly interior
-    inter[rng.randrange(S)] += 1 - sum(inter)
-    beliefs.append(inter)
-    if rng.random() < 0.5:
-        beliefs.append(_dist(rng, S, bden, 0.3))
-    if regime == "gen":
-        # random doubles: perturb away from the rational grid, renormalise, keep structural zeros
-        def jig(v):
-            w = [float(x) * (1.0 + 0.25 * rng.random()) if x != 0 else 0.0 for x in v]
-            s = sum(w)
-            w = [x / s for x in w]
-            # keep every non-zero entry well above the sparse models' 1e-6 drop threshold
-            return w if all(x == 0.0 or x >= 1e-3 for x in w) else [float(x) for x in v]
-        T = [[jig(r) for r in Ta] for Ta in T]
-        Ob = [[jig(r) for r in Oa] for Oa in Ob]
-        beliefs = [jig(b) for b in beliefs]
-        R3 = [[[float(x) * (1.0 + rng.random()) for x in r] for r in Rs] for Rs in R3]
-        tok = lambda x: float(x).hex()
-    else:
-        tok = lambda x: _tok(x, "dy")
-    toks = ["bel", regime, str(S), str(A), str(O)]
-    toks += [tok(T[a][s][s1]) for a in range(A) for s in range(S) for s1 in range(S)]
-    toks += [tok(Ob[a][s1][o]) for a in range(A) for s1 in range(S) for o in range(O)]
-    toks += [tok(R3[s][a][s1]) for s in range(S) for a in range(A) for s1 in range(S)]
-    toks.append(str(len(beliefs)))
-    for b in beliefs:
-        toks += [tok(x) for x in b]
-    return " ".join(toks)
+    beliefs = []
+    for k in (rng.randint(20, 27), rng.randint(20, 27)):
+        eps = Fraction(1, 1 << k)
+        b = _dist(rng, S, 64, 0.3)
+        # move mass so that b[u] = 2^-k exactly
+        v = max((x for x in range(S) if x != u), key=lambda x: b[x])
+        b[v] += b[u] - eps
+        b[u] = eps
+        if all(x >= 0 for x in b):
+            beliefs.append(b)
+    beliefs.append([Fraction(int(i == u)) for i in range(S)])       # corner at u: ordinary probability
+    beliefs.append(_dist(rng, S, 64, 0.0))
+    return _finish(rng, "bel", "dy", S, A, O, [(T, Ob, _rewards(rng, S, A, "dy"))], beliefs)
+
+
+def _case_reset(rng, regime):
+    """models built by the (O,S,A) constructor (identity transitions, observation 0 certain) and re-set twice:
+    first with dense-ish tables 1, then with tables 2 that have zeros where tables 1 / the constructor had
+    non-zeros.  The oracle's ground truth is tables 2."""
+    S = rng.choice([2, 3, 3, 4])
+    A = rng.choice([1, 2])
+    O = rng.choice([2, 3])
+    den = rng.choice([4, 8, 16]) if regime == "dy" else rng.choice([7, 10, 100])
+    m1 = _random_model(rng, S, A, O, den, rng.choice([0.0, 0.2]))
+    m2 = _random_model(rng, S, A, O, den, rng.choice([0.5, 0.7]))
+    if m1 is None or m2 is None:
+        return None
+    T1, Ob1 = m1
+    T2, Ob2 = m2
+    # force zeros where the constructor leaves non-zeros: T(s,a,s) and O(s1,a,0)
+    a0, s0 = rng.randrange(A), rng.randrange(S)
+    row = [Fraction(0)] * S
+    for x, p in zip([x for x in range(S) if x != s0], _dist(rng, S - 1, den, 0.3)):
+        row[x] = p
+    T2[a0][s0] = row
+    row = [Fraction(0)] * O
+    for x, p in zip(range(1, O), _dist(rng, O - 1, den, 0.3)):
+        row[x] = p
+    Ob2[a0][rng.randrange(S)] = row
+    if _symmetric(S, A, O, T2, Ob2):
+        return None
+    beliefs = _beliefs(rng, S, 64 if regime == "dy" else den, few=True)
+    return _finish(rng, "reset", regime, S, A, O,
+                   [(T1, Ob1, _rewards(rng, S, A, regime)), (T2, Ob2, _rewards(rng, S, A, regime))], beliefs)
 
 
 def gen(rng, tier):
     n = {"quick": 320, "thorough": 1500, "search": 600}[tier]
     out = []
     while len(out) < n:
-        regime = "dy" if rng.random() < 0.8 else "gen"
-        c = _case(rng, regime)
+        u = rng.random()
+        if u < 0.10:
+            c = _case_tiny(rng)
+        elif u < 0.22:
+            c = _case_reset(rng, "dy" if rng.random() < 0.8 else "gen")
+        else:
+            c = _case(rng, "dy" if rng.random() < 0.8 else "gen")
         if c is not None:
             out.append(c)
     return out
